@@ -3,6 +3,7 @@
     its old value again afterwards, whatever the evaluation did to it; otherwise the name is removed again. *)
 From WalModel Require Import Api.
 From WalModel.proofs Require Import ScopeProofs.
+From WalModel.proofs Require FrameInv.
 Local Open Scope Z_scope.
 
 (** the evaluation proper *)
@@ -94,6 +95,28 @@ Proof.
   intros Hl H. destruct (kw_fresh fl e n v st r st' Hl H) as (st_b & st_r & Hd & Hb & Hu).
   exists st_b, st_r. split; [exact (define_binds _ _ _ _ Hd)|]. split; [exact Hb|]. split; [exact (undefine_binds _ _ _ Hu)|].
   intros Hn. rewrite (undefine_binds _ _ _ Hu). apply alookup_adel_nodup, Hn.
+Qed.
+
+(** with the frame invariant (FrameInv.v: no frame ever binds a name twice) the fresh name is unbound afterwards *)
+Lemma good_kw_body fl e : FrameInv.good (kw_body fl e).
+Proof. unfold kw_body. destruct (ast_truthy e); [apply FrameInv.good_run_form|apply FrameInv.good_ret]. Qed.
+
+Lemma gbinds_distinct st : FrameInv.fwf st -> NoDup (map fst (gbinds st)).
+Proof.
+  intros W. unfold gbinds. destruct (get_frame st global_id) as [f|] eqn:Ef; [|constructor].
+  exact (FrameInv.forall_get_frame _ _ _ _ W Ef).
+Qed.
+
+Theorem kw_fresh_unbound_afterwards fl e n v st r st' :
+  FrameInv.fwf st -> lookup_frame st global_id n = None -> wal_eval_with fl e [(n, v)] st = Ok r st' ->
+  alookup n (gbinds st') = None /\ FrameInv.fwf st'.
+Proof.
+  intros W Hl H. destruct (kw_fresh fl e n v st r st' Hl H) as (st_b & st_r & Hd & Hb & Hu).
+  pose proof (FrameInv.good_env_define _ _ _ _ _ _ Hd W) as Wb.
+  pose proof (good_kw_body fl e _ _ _ Hb Wb) as Wr.
+  split.
+  - rewrite (undefine_binds _ _ _ Hu). apply alookup_adel_nodup, gbinds_distinct, Wr.
+  - exact (FrameInv.good_env_undefine _ _ _ _ _ Hu Wr).
 Qed.
 
 (** the premises are met: z is fresh, bound to 41 during the evaluation and gone afterwards; CS existed and is restored *)
